@@ -75,3 +75,19 @@ impl Housekeeper {
         ts.expect("Timestamp overflow")
     }
 }
+
+// Verification hooks (guarded; compiled only with `--cfg mini_moka_verif`).
+#[cfg(mini_moka_verif)]
+impl Housekeeper {
+    /// Re-bases `sync_after` on the given (mock) clock reading.
+    pub(crate) fn verif_reset(&self, now: Instant) {
+        self.sync_after.set_instant(Self::sync_after(now));
+    }
+
+    pub(crate) fn verif_state(&self) -> (bool, Option<Instant>) {
+        (
+            self.is_sync_running.load(Ordering::Acquire),
+            self.sync_after.instant(),
+        )
+    }
+}
